@@ -47,6 +47,10 @@ def load_known(prop):
         return {}
     with open(KNOWN_FILE) as f:
         entries = json.load(f)
+    extra = os.environ.get("PBT_KNOWN_EXTRA")       # development only: candidate entries not yet merged into the committed file
+    if extra and os.path.exists(extra):
+        with open(extra) as f:
+            entries = entries + json.load(f)
     return {e["signature"]: e for e in entries
             if e["property"] == prop and e.get("status") == "known"}
 
